@@ -51,7 +51,7 @@ func c01Command(rc *RunCtx, t *simrt.Tape) {
 	p := drawParCfg(t, len(fc.Recs))
 	dir := filepath.Join(rc.Dir, fmt.Sprintf("t%d", rc.Index))
 	os.MkdirAll(dir, 0755)
-	defer os.RemoveAll(dir)
+	defer cleanup(dir)
 	ext := map[int]string{fmFasta: ".fasta", fmFastq: ".fastq", fmGenbank: ".gb", fmEmbl: ".dat"}[format]
 	in := filepath.Join(dir, "in"+ext+codecExt[codec])
 	os.WriteFile(in, compress(codec, fc.Text), 0644)
@@ -137,7 +137,7 @@ func c17Command(rc *RunCtx, t *simrt.Tape) {
 	p := drawParCfg(t, len(fc.Recs))
 	dir := filepath.Join(rc.Dir, fmt.Sprintf("f%d", rc.Index))
 	os.MkdirAll(dir, 0755)
-	defer os.RemoveAll(dir)
+	defer cleanup(dir)
 	ext := map[int]string{fmFasta: ".fasta", fmFastq: ".fastq"}[format]
 	in := filepath.Join(dir, "in"+ext+codecExt[codec])
 	os.WriteFile(in, data, 0644)
@@ -211,7 +211,7 @@ func c18Command(rc *RunCtx, t *simrt.Tape) {
 	recs := annotatedRecs(t, n, fastq)
 	dir := filepath.Join(rc.Dir, fmt.Sprintf("w%d", rc.Index))
 	os.MkdirAll(dir, 0755)
-	defer os.RemoveAll(dir)
+	defer cleanup(dir)
 	in := filepath.Join(dir, "in.fastx")
 	if fastq {
 		os.WriteFile(in, fastqText(recs, true), 0644)
